@@ -21,7 +21,7 @@ ANCHORS = ["decaylanguage.decay.decay:DecayChain.to_dict", "decaylanguage.decay.
 WORKERS = {"quick": 4, "thorough": 16}
 WTESTS = {"groups": ['chain_to_dict', 'mode_to_dict'], "tests": ['tests/decay', 'tests/utils']}
 REQUIRED = {"same-decaying-twice-in-one-fs": 20, "same-decaying-two-depths": 20, "metadata-nested>=2": 20, "multiplicity-4": 20,
-            "parser-chain": 20, "queried-before-to_dict": 50, "parser-chain-repeated-daughter": 5, "pdgid-all-ids": 1, "four-constructions": 100, "zero-or-negative-count-in-mapping": 10,
+            "parser-chain": 20, "queried-before-to_dict": 50, "parser-chain-repeated-daughter": 5, "pdgid-all-ids": 1, "four-constructions": 100, "zero-or-negative-count-in-mapping": 10, "mode-built-from-a-final-state-object-the-caller-edits-afterwards": 20,
             "C11.chain.to_dict.roundtrip": 300, "C11.mode.to_dict.roundtrip": 300}
 EXHAUSTIVE_NOTE = "all PDG IDs of the EvtGen table go through DecayMode.from_pdgids (sharded over workers); tree shapes <= 5 (quick) / 6 (thorough) enumerated"
 ASSUMPTIONS = ["structural equality is judged on public attributes (mother, decays, bf, daughters, metadata); model_params None == ''"]
@@ -146,9 +146,20 @@ def check_mode(ctx, fs, bf, meta):
 
     wit = {"kind": "mode", "fs": fs, "bf": bf, "meta": meta}
     ctx.case({"mode": fs, "bf": bf, "meta": meta}, nontrivial=sum(fs.values()) >= 2, workload="gen-mode")
-    ok, dm = ctx.guard("mode-roundtrip:construct", wit, lambda: DecayMode(bf, dict(fs), **meta))
+    shared = None
+    if ctx.rng.random() < 0.3:
+        # the final state is handed over as a DaughtersDict object, which the caller goes on using for his next mode
+        from decaylanguage import DaughtersDict  # noqa: PLC0415
+
+        shared = DaughtersDict(dict(fs))
+        ctx.hit("mode-built-from-a-final-state-object-the-caller-edits-afterwards")
+        wit["given_as"] = "DaughtersDict object, edited after construction"
+    ok, dm = ctx.guard("mode-roundtrip:construct", wit, lambda: DecayMode(bf, shared if shared is not None else dict(fs), **meta))
     if not ok:
         return
+    if shared is not None:
+        shared["pi0"] += 2
+        shared["<edited>"] = 1
     ok, d = ctx.guard("mode-roundtrip:to_dict", wit, dm.to_dict)
     for v in contracts.drain():
         ctx.violate(v["mechanism"], v["message"], wit)
